@@ -22,7 +22,7 @@ func NonCanonical(r *rand.Rand) []byte {
 	n := 1 + r.IntN(4)
 	for i := 0; i < n; i++ {
 		var o []byte
-		switch r.IntN(24) {
+		switch r.IntN(25) {
 		case 18: // vendor options of the vendors whose formats exist, sub-options numbered from 1 with plausible payloads
 			en := []uint32{4491, 9, 311, 2636, 30065, 1271, 42623}[r.IntN(7)]
 			v := be32(en)
@@ -199,6 +199,26 @@ func NonCanonical(r *rand.Rand) []byte {
 				o = append(tlv(14, nil), tlv(14, nil)...)
 			default:
 				o = append(tlv(7, []byte{byte(r.UintN(256))}), tlv(7, []byte{byte(r.UintN(256))})...)
+			}
+		case 24: // canonical forms whose fields have edge values, written by hand (what the library's own encoder makes of
+			// such a value cannot filter them out): DUID-LLT with time 0 / 1 / 2^32-1, DUID-EN with enterprise number 0, an IA
+			// prefix that is only a length hint (::/56), lifetimes of 0 and infinity, an elapsed time of 0xffff
+			e32 := func() []byte { return be32([]uint32{0, 1, 0xffffffff, 0x80000000, 0x7fffffff}[r.IntN(5)]) }
+			switch r.IntN(5) {
+			case 0:
+				d := append(append([]byte{0, 1, 0, byte(1 + r.UintN(2)*5)}, e32()...), gen4.Bytes(r, 6)...)
+				o = tlv(1+r.IntN(2), d)
+			case 1:
+				o = tlv(1+r.IntN(2), append(append([]byte{0, 2}, e32()...), gen4.Bytes(r, 1+r.IntN(12))...))
+			case 2:
+				pl := byte([]int{1, 48, 56, 64, 127, 128}[r.IntN(6)])
+				pfx := append(append(append(e32(), e32()...), pl), make([]byte, 16)...)
+				o = tlv(25, append(append(append(be32(r.Uint32()), e32()...), e32()...), tlv(26, pfx)...))
+			case 3:
+				ad := append(append(gen4.Bytes(r, 16), e32()...), e32()...)
+				o = tlv(3, append(append(append(be32(r.Uint32()), e32()...), e32()...), tlv(5, ad)...))
+			default:
+				o = tlv(8, [][]byte{{0xff, 0xff}, {0, 0}, {0xff, 0xfe}, {0x80, 0}}[r.IntN(4)])
 			}
 		}
 		opts = append(opts, o...)
